@@ -20,7 +20,9 @@ SettingsPool ==
      [builder |-> TRUE, map |-> "btree", derives |-> <<"PartialEq">>, typeMod |-> "types"],
      [builder |-> TRUE],
      [builder |-> FALSE, map |-> "mymap"],
-     [builder |-> FALSE, derives |-> <<"PartialEq", "Eq">>],
+     (* PartialEq is the one extra derive every generated type admits (Eq fails on floats, by the
+        caller's choice, not typify's) *)
+     [builder |-> FALSE, map |-> "btree", derives |-> <<"PartialEq">>],
      [builder |-> TRUE, typeMod |-> "types"],
      (* conversion targets declaring each subset of {FromStr, Display} (documents of family G7 only) *)
      [builder |-> FALSE, convert |-> << [schema |-> PathS, ty |-> "crate::support::PathLike", impls |-> <<"FromStr">>] >>],
@@ -41,7 +43,13 @@ Calls(doc, mode) ==
                                      doc |-> [root |-> Titled(doc.defs["T"], "RootT"),
                                               defs |-> [n \in DOMAIN doc.defs \ {"T"} |-> doc.defs[n]]]] >>
 
-Init == d \in DOMAIN Universe /\ s = 1 /\ m = "root"
+(* states outside the tier's settings/mode ranges that every tier visits (recorded findings) *)
+ExtraStates == { <<"F4", "obj-null", 1, "titled-root">>, <<"F4", "enum-null", 1, "titled-root">>,
+                 <<"G2", "containers", 4, "root">> }
+Init == \/ d \in DOMAIN Universe /\ s = 1 /\ m = "root"
+        \/ \E x \in ExtraStates :
+              /\ d \in DOMAIN Universe /\ Universe[d].fam = x[1] /\ Universe[d].id = x[2]
+              /\ s = x[3] /\ m = x[4]
 NextSettings == \/ s \in SettingsIdx /\ \E s2 \in SettingsIdx : s2 > s /\ s' = s2 /\ UNCHANGED <<d, m>>
                 \/ s = 1 /\ m = "root" /\ Universe[d].fam = "G7" /\ \E s2 \in ConvIdx : s' = s2 /\ UNCHANGED <<d, m>>
 NextMode == m = "root" /\ s \notin ConvIdx /\ \E m2 \in Modes \ {"root"} : m' = m2 /\ UNCHANGED <<d, s>>
@@ -54,7 +62,9 @@ RefersT(x) == TRUE
 OkMode == m # "titled-root" \/ TRUE
 
 Emit == PrintT(<<"CASE", ToJson([fam |-> Doc0.fam, id |-> Doc0.id, mode |-> m, sidx |-> s,
-                                 supported |-> Supported(Doc0),
+                                 (* a document whose definition T becomes the titled root is not claimed to be
+                                    accepted: references to T dangle and typify names a root only by its title *)
+                                 supported |-> Supported(Doc0) /\ m # "titled-root",
                                  settings |-> SettingsPool[s],
                                  calls |-> Calls(Doc0, m),
                                  bounds_all |-> TRUE,
